@@ -41,8 +41,23 @@ def run(tier):
     chunks = X.prepare(work, shapes, chunk=8)
     errors = [c['error'] for c in chunks if c['error']]
     tasks = build_tasks(chunks, tier, ftier, ends=('le', 'be') if tier == 'quick' else ('le', 'be', 'na'))
-    results = X.run_tasks(tasks)
-    obs = X.to_obligations('C03', results, chunks, 'roundtrip')
+    # the other direction: encode<E> of an arbitrary C++ object (structure per query, scalars symbolic) equals the
+    # canonical encoding of its value - what the Python codec reads
+    ctasks = build_tasks(chunks, tier, ftier, query='q_size_agreement', ends=('both',), cap=4 if tier == 'quick' else 16, tag='enc-canonical')
+    for t in ctasks:
+        t['canonical'] = True
+        t['ends'] = ['le', 'be']
+    results = X.run_tasks(tasks + ctasks)
+    from . import p_c05
+
+    def confirm(chunk, shape, e, viol, L_):
+        if viol.get('_desc', {}).get('check') == 'enc-canonical':
+            return p_c05.confirm(chunk, shape, e, viol, L_)
+        return X.confirm_decode_violation(chunk, shape, e, viol, L_)
+    for r in results:
+        for v in r.get('violations', []):
+            v['_desc'] = r['desc']
+    obs = X.to_obligations('C03', results, chunks, 'roundtrip', confirm=confirm)
     # link: the Python codec writes exactly the reference bytes (C01's assertion) on the same family
     if not os.environ.get('VF_ONLY'):
         pobs, conds, fam, _ = codec_e1.run_value_checks('C03', tier, ['enc'], shape_filter=F.cpp_full_eligible, cap=2 if tier == 'quick' else 6, family_tier=ftier)
